@@ -99,7 +99,10 @@ class SSCChart(BaseChart):
             raise ValueError("expected NOTEDATA property first")
 
         for param in iterator:
-            if param.key in BaseSimfile.MULTI_VALUE_PROPERTIES:
+            if (
+                param.key in BaseSimfile.MULTI_VALUE_PROPERTIES
+                and param.value is not None
+            ):
                 self[param.key] = ":".join(param.components[1:])
             else:
                 self[param.key] = param.value
@@ -219,7 +222,7 @@ class SSCSimfile(BaseSimfile):
         partial_chart: Optional[SSCChart] = None
         for param in parser:
             key = param.key.upper()
-            if key in BaseSimfile.MULTI_VALUE_PROPERTIES:
+            if key in BaseSimfile.MULTI_VALUE_PROPERTIES and param.value is not None:
                 value: Optional[str] = ":".join(param.components[1:])
             else:
                 value = param.value
